@@ -280,3 +280,8 @@ PROPS["C06"]["e2"] += [E("partition_native", "p_parblock", "lemma_partition_nati
 PROPS["C05"]["e2"] += [E("uspace_loops", "p_libfs", "lemma_uspace_loops")]
 PROPS["C07"]["e2"] += [E("uspace_loops", "p_libfs", "lemma_uspace_loops")]
 PROPS["C04"]["e2"] += [E("uspace_loops", "p_libfs", "lemma_uspace_loops")]
+
+for _p in ("C02", "C08", "C17"):
+    PROPS[_p]["e2"] += [E("tree_walker_two_sources", "p_walker", "lemma_tree_walker_two_sources")]
+for _p in ("C04", "C13", "C14", "C12"):
+    PROPS[_p]["e2"] += [E("tree_walker_two_sources", "p_walker", "lemma_tree_walker_two_sources", tier="thorough")]
